@@ -333,11 +333,11 @@ def _active_from_selection(
             for target in node.targets:
                 if target is END or target not in active_set:
                     continue
-                if target not in needed:
-                    worklist.append(target)
-                    for desc in nx.descendants(sub, target):
-                        if desc not in needed:
-                            worklist.append(desc)
+                # Expand every target with its descendants even when the target was
+                # already reached: skipping it made the result depend on the (set)
+                # iteration order of the worklist. Duplicates are dropped on pop.
+                worklist.append(target)
+                worklist.extend(nx.descendants(sub, target))
 
     return needed
 
